@@ -94,7 +94,8 @@ GRPC_RULE = (" PLUS grpcsnap: three real nodes over the library's own gRPC trans
 FSMRACE_RULE = (" PLUS fsmrace: real nodes with a state machine whose Apply/Snapshot/Restore calls are held at their first "
                 "instruction: (a) Snapshot held after takeSnapshot chose its label while the next operation is committed, then restart "
                 "(restore + replay); (b) a follower's Apply held while a snapshot covering that operation is installed; no operation "
-                "may be in a state machine twice (defects D8, D9)")
+                "may be in a state machine twice (defects D8, D9); (c) a follower starts a slow local snapshot after the first chunk of a "
+                "received snapshot and the final chunk arrives meanwhile: it must end with the received state (defect D23)")
 
 
 def cosim_plan(exclude=(), handlers=None, d3=False, grpc=False, fsmrace=False):
